@@ -23,6 +23,7 @@ type C01Case struct {
 	FIFO   bool    `json:"fifo"`
 	NegIdx bool    `json:"negidx"`
 	FwdIdx bool    `json:"fwdidx"`
+	Amb    int     `json:"amb,omitempty"` // ambient neutral settings (build.go AmbXxx)
 	Init   int     `json:"init"` // number of values pushed one by one before the program
 	Ops    []C01Op `json:"ops"`
 }
@@ -170,6 +171,7 @@ func runC01(c C01Case) (st Stats, err error) {
 		if c.FwdIdx {
 			s.SetForwardIndices(true)
 		}
+		ApplyAmbient(s, c.Amb&^AmbPushOK)
 		for i := 0; i < c.Init; i++ {
 			v := next(false)
 			s.Push(v)
@@ -387,6 +389,7 @@ func genC01(t *rapid.T, tier Tier) C01Case {
 		NegIdx: rapid.Bool().Draw(t, "negidx"),
 		FwdIdx: rapid.Bool().Draw(t, "fwdidx"),
 		Init:   rapid.IntRange(0, 4).Draw(t, "init"),
+		Amb:    drawAmbient(t, false),
 	}
 	if rapid.Bool().Draw(t, "hascap") {
 		c.Cap = rapid.IntRange(1, 6).Draw(t, "cap")
